@@ -93,7 +93,15 @@ def build_pix(r):
     if k == 'line':
         return R.LinePixelRegion(c, PixCoord(r['x2'] / U, r['y2'] / U), **kw)
     if k == 'polygon':
-        return R.PolygonPixelRegion(PixCoord(np.array([v[0] / U for v in r['vs']]), np.array([v[1] / U for v in r['vs']])), **kw)
+        xs, ys = np.array([v[0] / U for v in r['vs']]), np.array([v[1] / U for v in r['vs']])
+        route = (len(r['vs']) + int(r['vs'][0][0]) + int(r['vs'][0][1])) % 3
+        if route == 1:          # vertices given relative to an origin
+            return R.PolygonPixelRegion(PixCoord(xs - 140.0, ys - 95.0), origin=PixCoord(140.0, 95.0), **kw)
+        if route == 2:          # vertices assigned after construction
+            reg = R.PolygonPixelRegion(PixCoord(xs[::-1] * 2.0 + 7.0, ys[::-1] - 3.0), **kw)
+            reg.vertices = PixCoord(xs, ys)
+            return reg
+        return R.PolygonPixelRegion(PixCoord(xs, ys), **kw)
     raise ValueError(k)
 
 
@@ -253,6 +261,36 @@ def check_state(ctx, st, idx, pid='C06'):
             got = np.asarray(sky.contains(sc, wcs))
             got2 = np.asarray(back.contains(pc))
         bad = (~near) & ((got != ref) | (got2 != ref))
+        # a sky region that was asked before with other parameters answers like this one once it has been given these parameters
+        if not bad.any() and r['k'] != 'compound':
+            import astropy.units as u
+            try:
+                with warnings.catch_warnings():
+                    warnings.simplefilter('ignore')
+                    alt = sky.copy()
+                    for pn in alt._params:
+                        v = getattr(alt, pn)
+                        if pn in ('center', 'vertices', 'angle'):
+                            continue
+                        setattr(alt, pn, v * 1.75)
+                    if 'center' in alt._params:
+                        alt.center = wcs.pixel_to_world(float(xs[0]), float(ys[0]))
+                    alt.meta['include'] = not bool(sky.meta.get('include', True))
+                    alt.contains(sc[:7], wcs)
+                    for pn in reversed(alt._params):
+                        setattr(alt, pn, getattr(sky, pn))
+                    if 'include' in sky.meta:
+                        alt.meta['include'] = sky.meta['include']
+                    else:
+                        del alt.meta['include']
+                    got3 = np.asarray(alt.contains(sc, wcs))
+                if (got3 != got).any():
+                    ctx.violation(sig + f'member-after-edit|{kindsig(r)}', f'a sky region edited to these parameters after an earlier query answers {int((got3 != got).sum())} positions '
+                                  'differently from the same region built afresh', case)
+                    return True
+            except Exception as ex:  # noqa
+                ctx.violation(sig + f'member-after-edit|{kindsig(r)}|{type(ex).__name__}', f'editing and re-querying a sky region raised {ex!r}', case)
+                return True
         ctx.dontcare += int(near.sum())
         if bad.any():
             i = int(np.nonzero(bad)[0][0])
